@@ -19,6 +19,7 @@ import (
 	"math/rand"
 	"net"
 	"net/netip"
+	"os"
 	"runtime"
 	"strconv"
 	"strings"
@@ -106,7 +107,13 @@ type world struct {
 	blocked int // shadow: reads expected to be blocked
 	queued  int
 	expect  []int // shadow: 0 none, 1 blocked, 2 has result
+	dl      []int // shadow: read deadline of the handle: 0 none, 1 far in the future, 2 in the past
+	delivs  int   // datagrams delivered so far (they are numbered)
+	uclosed bool  // shadow: every handle was closed at some point (the underlying is closed)
 }
+
+// "promptly": a generous watchdog, so that load cannot turn a slow wake-up into an observation
+const watchdog = 2500 * time.Millisecond
 
 var remote = &net.UDPAddr{IP: net.IPv4(192, 0, 2, 9), Port: 4100}
 var remoteAP = netip.MustParseAddrPort("192.0.2.9:4100")
@@ -243,8 +250,20 @@ func (w *world) doClose(hs []int) (int, int) {
 			if w.expect[h] == 1 {
 				w.expect[h] = 2
 				w.blocked--
+				// the pending read of the closed handle has to come back promptly (watchdog); waiting here also
+				// keeps the count of parked readers exact for the operations that follow
+				for t0 := time.Now(); time.Since(t0) < watchdog && len(w.reads[h].done) == 0; {
+					time.Sleep(20 * time.Microsecond)
+				}
 			}
 		}
+	}
+	all := len(w.closed) > 0
+	for _, c := range w.closed {
+		all = all && c
+	}
+	if all {
+		w.uclosed = true
 	}
 	return e, w.closes()
 }
@@ -262,6 +281,7 @@ func (w *world) op(t string) string {
 		w.closed = append(w.closed, false)
 		w.reads = append(w.reads, &readSlot{})
 		w.expect = append(w.expect, 0)
+		w.dl = append(w.dl, 0)
 		return fmt.Sprintf("%d,%d", len(w.handles)-1, w.closes())
 	case "close":
 		e, c := w.doClose(ints(f[1])[:1])
@@ -304,6 +324,24 @@ func (w *world) op(t string) string {
 			return "9"
 		}
 		return fmt.Sprint(w.writeOn(h))
+	case "dl":
+		// SetReadDeadline: none / far in the future / in the past (no fine-grained timing anywhere)
+		h, d := ints(f[1])[0], ints(f[2])[0]
+		if h < 0 || h >= len(w.handles) || w.expect[h] != 0 {
+			return "9" // no such handle; or a read is in progress on it (which deadline it sees would be a race)
+		}
+		var t time.Time
+		switch d {
+		case 1:
+			t = time.Now().Add(10 * time.Minute)
+		case 2:
+			t = time.Now().Add(-time.Minute)
+		}
+		err := w.handles[h].SetReadDeadline(t)
+		if err == nil {
+			w.dl[h] = d
+		}
+		return fmt.Sprint(errClass(err))
 	case "rstart":
 		h := ints(f[1])[0]
 		if h < 0 || h >= len(w.handles) || w.expect[h] != 0 {
@@ -312,10 +350,10 @@ func (w *world) op(t string) string {
 		slot := w.reads[h]
 		slot.done = make(chan int, 1)
 		pc := w.handles[h]
-		waitingBefore, _ := ice.VerifSharedReadWaiting(pc)
 		go func() {
 			buf := make([]byte, 64)
 			var err error
+			n := 0
 			func() {
 				defer func() {
 					if p := recover(); p != nil {
@@ -323,27 +361,51 @@ func (w *world) op(t string) string {
 					}
 				}()
 				if apr, ok := pc.(ice.AddrPortReaderWriter); ok && h%2 == 1 {
-					_, _, err = apr.ReadFromAddrPort(buf)
+					n, _, err = apr.ReadFromAddrPort(buf)
 				} else {
-					_, _, err = pc.ReadFrom(buf)
+					n, _, err = pc.ReadFrom(buf)
 				}
 			}()
 			switch {
 			case err == nil:
-				slot.done <- 1
+				seq := 0
+				if n >= 2 {
+					seq = int(buf[0])<<8 | int(buf[1])
+				}
+				slot.done <- 1000 + seq // data: datagram number seq
 			case errors.Is(err, io.ErrClosedPipe):
 				slot.done <- 2
 			case errors.Is(err, io.EOF):
 				slot.done <- 3
+			case errors.Is(err, os.ErrDeadlineExceeded):
+				slot.done <- 5
 			default:
 				slot.done <- 4
 			}
 		}()
 		// wait until the reader is parked in the underlying (or has returned), so that the order of
 		// reads and deliveries in the history is the order the connection sees
-		if _, ok := ice.VerifSharedReadWaiting(pc); ok {
-			for k := 0; k < 50000; k++ {
-				if n, _ := ice.VerifSharedReadWaiting(pc); n > waitingBefore || len(slot.done) == 1 {
+		switch {
+		case w.closed[h] || w.uclosed:
+			w.expect[h] = 2 // fails at once (a handle requested after the last close reads io.EOF)
+		case w.queued > 0:
+			w.queued--
+			w.expect[h] = 2
+		case w.dl[h] == 2:
+			w.expect[h] = 2 // deadline in the past: returns a timeout at once
+		default:
+			w.expect[h] = 1
+		}
+		// Let the read get where the history says it is before the history goes on: an immediate result
+		// has arrived (watchdog), a blocking read is parked in the underlying.
+		if w.expect[h] == 2 {
+			for t0 := time.Now(); time.Since(t0) < watchdog && len(slot.done) == 0; {
+				time.Sleep(20 * time.Microsecond)
+			}
+		} else if _, ok := ice.VerifSharedReadWaiting(pc); ok {
+			want := w.blocked + 1
+			for t0 := time.Now(); time.Since(t0) < time.Second; {
+				if n, _ := ice.VerifSharedReadWaiting(pc); n >= want || len(slot.done) == 1 {
 					break
 				}
 				time.Sleep(20 * time.Microsecond)
@@ -351,14 +413,7 @@ func (w *world) op(t string) string {
 		} else {
 			time.Sleep(300 * time.Microsecond)
 		}
-		switch {
-		case w.closed[h]:
-			w.expect[h] = 2
-		case w.queued > 0:
-			w.queued--
-			w.expect[h] = 2
-		default:
-			w.expect[h] = 1
+		if w.expect[h] == 1 {
 			w.blocked++
 		}
 		return "0"
@@ -369,7 +424,7 @@ func (w *world) op(t string) string {
 		}
 		wait := 2 * time.Millisecond
 		if w.expect[h] == 2 {
-			wait = 3 * time.Second
+			wait = watchdog
 		}
 		select {
 		case r := <-w.reads[h].done:
@@ -377,6 +432,9 @@ func (w *world) op(t string) string {
 				w.blocked--
 			}
 			w.expect[h] = 0
+			if r >= 1000 {
+				return fmt.Sprintf("1,%d", r-1000)
+			}
 			return fmt.Sprint(r)
 		case <-time.After(wait):
 			return "0"
@@ -392,7 +450,8 @@ func (w *world) op(t string) string {
 		if allClosed {
 			return "0"
 		}
-		_ = w.under.Deliver([]byte("hello"), remoteAP)
+		w.delivs++
+		_ = w.under.Deliver([]byte{byte(w.delivs >> 8), byte(w.delivs), 'c', '1', '3'}, remoteAP)
 		delivered := false
 		for h := range w.expect {
 			if w.expect[h] == 1 {
@@ -400,7 +459,7 @@ func (w *world) op(t string) string {
 				w.blocked--
 				delivered = true
 				// let the parked reader take the datagram before the history goes on
-				for k := 0; k < 50000 && len(w.reads[h].done) == 0; k++ {
+				for t0 := time.Now(); time.Since(t0) < time.Second && len(w.reads[h].done) == 0; {
 					time.Sleep(20 * time.Microsecond)
 				}
 				break
@@ -477,6 +536,7 @@ func gen(rng *rand.Rand, thorough bool) (toks []string, tag string) {
 	toks = append(toks, "new")
 	closed, rstate = append(closed, false), append(rstate, 0)
 	resurrected := false
+	deadlines := false
 	for k := 0; k < n; k++ {
 		o := open()
 		r := rng.Intn(100)
@@ -537,13 +597,17 @@ func gen(rng *rand.Rand, thorough bool) (toks []string, tag string) {
 				continue
 			}
 			toks = append(toks, fmt.Sprintf("write:%d", anyH()))
-		case r < 75:
+		case r < 70:
+			// a read deadline: none, far in the future (a pending read must still die with its handle) or in the past
+			toks = append(toks, fmt.Sprintf("dl:%d:%d", anyH(), []int{0, 1, 1, 1, 2}[rng.Intn(5)]))
+			deadlines = true
+		case r < 82:
 			h := anyH()
 			toks = append(toks, fmt.Sprintf("rstart:%d", h))
 			if h < len(rstate) {
 				rstate[h] = 1
 			}
-		case r < 92:
+		case r < 94:
 			h := anyH()
 			toks = append(toks, fmt.Sprintf("rpoll:%d", h))
 		default:
@@ -568,20 +632,54 @@ func gen(rng *rand.Rand, thorough bool) (toks []string, tag string) {
 	if resurrected {
 		tag += ",new-after-last-close"
 	}
+	if deadlines {
+		tag += ",deadline"
+	}
 	return toks, tag
 }
 
+// genDeadline: short histories around a pending read that carries a read deadline when its handle
+// (or a sibling) is closed.
+func genDeadline(rng *rand.Rand) (toks []string, tag string) {
+	mode := []string{"wrap", "wrap", "udp", "tcp"}[rng.Intn(4)]
+	toks = []string{mode, fmt.Sprintf("ap%d", rng.Intn(2)), fmt.Sprintf("pt%d,%d", rng.Intn(1<<30), rng.Intn(4))}
+	a, b := 0, 1
+	if rng.Intn(2) == 0 {
+		a, b = 1, 0
+	}
+	A, B := fmt.Sprint(a), fmt.Sprint(b)
+	switch rng.Intn(4) {
+	case 0: // the closed handle's pending read has a far deadline; the sibling's pending read gets the next datagram
+		toks = append(toks, "new", "new", "dl:"+A+":1", "rstart:"+A, "rstart:"+B, "close:"+A, "rpoll:"+A, "deliver", "rpoll:"+B, "rpoll:"+A)
+	case 1: // as 0, the closed handle's read is collected only after the delivery
+		toks = append(toks, "new", "new", "dl:"+A+":1", "rstart:"+A, "close:"+A, "deliver", "rstart:"+B, "rpoll:"+B, "rpoll:"+A)
+	case 2: // a deadline in the past times the read out and touches nobody else
+		toks = append(toks, "new", "new", "dl:"+A+":2", "rstart:"+B, "rstart:"+A, "rpoll:"+A, "rpoll:"+B, "write:"+B, "deliver", "rpoll:"+B, "dl:"+A+":0", "rstart:"+A, "rpoll:"+A)
+	default: // the sibling with the far deadline stays usable when the other handle closes
+		toks = append(toks, "new", "new", "dl:"+B+":1", "rstart:"+B, "rstart:"+A, "close:"+A, "rpoll:"+A, "rpoll:"+B, "deliver", "rpoll:"+B, "close:"+B, "rpoll:"+B)
+	}
+	return toks, mode + ",deadline"
+}
+
 func run(c *Ctx) error {
-	c.Rule = "a case is a history of 7-50 handle operations on one underlying connection (modes wrap 60% / udp 20% / tcp 20%; AddrPort handles 50%; seeded Gosched/us-sleep perturbation in the socket and in the underlying's Close): new, close, concurrent closes (with or without concurrent sibling writes), write, blocking read start / poll, datagram delivery; 18% malformed histories (unknown or closed handles, double close, a handle requested after the last close). Non-trivial = the history closes at least one handle while another is still open and later closes the last one."
+	c.Rule = "a case is a history of 7-50 handle operations on one underlying connection (modes wrap 60% / udp 20% / tcp 20%; AddrPort handles 50%; seeded Gosched/us-sleep perturbation in the socket and in the underlying's Close): new, close, concurrent closes (with or without concurrent sibling writes), write, SetReadDeadline (none / +10 min / -1 min), blocking read start / poll, delivery of numbered datagrams; 40 (thorough 200) short histories around a pending read that carries a deadline when its handle or a sibling closes; 18% malformed histories (unknown or closed handles, double close, a handle requested after the last close). Non-trivial = the history closes at least one handle while another is still open and later closes the last one."
 	if c.Replay != "" {
 		for _, t := range c.ReplayLines() {
 			emitCase(c, t, "replay")
 		}
 		return nil
 	}
-	n := 500
+	n := 1500
 	if c.Tier != "quick" {
-		n = 2000
+		n = 12000
+	}
+	nd := 40
+	if c.Tier != "quick" {
+		nd = 200
+	}
+	for k := 0; k < nd; k++ {
+		toks, tag := genDeadline(c.Rng)
+		emitCase(c, toks, tag)
 	}
 	for k := 0; k < n; k++ {
 		toks, tag := gen(c.Rng, c.Tier != "quick")
@@ -593,6 +691,12 @@ func run(c *Ctx) error {
 func emitCase(c *Ctx, toks []string, tag string) {
 	if tag == "replay" {
 		tag = toks[0]
+		for _, t := range toks {
+			if strings.HasPrefix(t, "dl:") {
+				tag = toks[0] + ",deadline"
+				break
+			}
+		}
 	}
 	obs := runCase(toks)
 	// non-trivial: some close left a sibling open, and the underlying got closed in the end
